@@ -9,7 +9,7 @@ import re
 
 from ..core import AnalysisError, norm
 from ..sim import simulate, truthy_view
-from .common import paths_of as paths_of_
+from .common import paths_of as paths_of_, effects
 from .. import rx
 
 TRUSTED = ['CPython ast / re._parser', 'engine /verif/sa (regex->NFA, product BFS)',
@@ -109,7 +109,7 @@ def _with_group_empty(pattern, name):
 
 def run(ctx):
     repo = ctx.repo
-    ctx.decided = ['C01.1 arg-accept', 'C01.2 arg-priority', 'C01.3 dispatch-table', 'C01.4 nullable-group truthiness',
+    ctx.decided = ['C01.14 every decoded argument is a fresh object', 'C01.1 arg-accept', 'C01.2 arg-priority', 'C01.3 dispatch-table', 'C01.4 nullable-group truthiness',
                    'C01.5 group inventory', 'C01.6 line-accept', 'C01.7 line-direction', 'C01.8 separator agreement',
                    'C01.10 direction flag', 'C01.11 field provenance', 'C01.12 group order', 'C01.13 every piece decoded in order']
     ctx.undecided = ['behaviour of the hand-written scanner argument_list_strs/end_of_str on every string',
@@ -216,6 +216,36 @@ def run(ctx):
                 res.append((c, sym, p))
         return res
 
+    # ---- C01.14 every decoded argument is an object of its own --------------------------------------------------------
+    # Arguments are completed in place later (Arg.*.resolve stores name / type / labels / the resolved object into the argument
+    # itself), so an argument object handed out for two lines makes the first line's completion appear on the second.
+    inplace = [w for a_ in ('name', 'type', 'labels', 'obj') for w in effects(repo).writers('core.wl.arg.Arg.Base', a_) + effects(repo).writers('core.wl.arg.Arg.Null', a_)
+               + effects(repo).writers('core.wl.arg.Arg.Int', a_) + effects(repo).writers('core.wl.arg.Arg.Object', a_) if not w.fresh]
+    shared = []
+    unknown_ret = []
+    n_ret_arg = 0
+    for p in arg_paths:
+        if p.outcome[0] != 'return':
+            continue
+        n_ret_arg += 1
+        v = p.outcome[1]
+        if isinstance(v, ast.Call) and re.match(r'^(?:wl\.)?Arg\.\w+$', norm(v.func)):
+            continue
+        base = v
+        while isinstance(base, (ast.Attribute, ast.Subscript)) or (isinstance(base, ast.Call) and isinstance(base.func, ast.Attribute) and base.func.attr in ('get', 'setdefault', 'pop')):
+            base = base.func.value if isinstance(base, ast.Call) else base.value
+        if isinstance(base, ast.Name) and (isinstance(v, (ast.Attribute, ast.Subscript)) or isinstance(v, ast.Call)) and v is not base:
+            shared.append(p)
+        else:
+            unknown_ret.append(p)
+    if inplace:
+        ctx.check(not shared, 'C01.14', 'argument:fresh-object', site_arg, 'every path of argument() returns an argument object constructed on that path',
+                  'argument() hands out a stored object (`%s`): arguments are completed in place later (%s), so the name / interface / labels found for one line show up on every later line that gets the same object'
+                  % (norm(shared[0].outcome[1])[:80] if shared else '', ', '.join(sorted({w.func.short for w in inplace}))[:120]))
+    ctx.floor('C01.14', n_ret_arg, 8, 'returning paths of argument()')
+    if unknown_ret and not shared:
+        raise AnalysisError('C01: argument() returns %s, which is not an argument constructor call' % norm(unknown_ret[0].outcome[1])[:80])
+    arg_paths = [p for p in arg_paths if p not in shared]
     n_disp = 0
     for kind, (krx, want_ctor, is_new) in KINDS.items():
         K = rx.regex_nfa(krx, 'full')
@@ -529,6 +559,7 @@ def run(ctx):
     sep = None
     skip = None
     quote_branch = False
+    quote_helpers = []
     lconst = {}
     for n in f_split.body_nodes():
         if isinstance(n, ast.Assign) and len(n.targets) == 1 and isinstance(n.targets[0], ast.Name) and isinstance(n.value, ast.Constant) and isinstance(n.value.value, str):
@@ -553,7 +584,16 @@ def run(ctx):
             p_ = n
             while p_ is not None and not isinstance(p_, ast.If):
                 p_ = getattr(p_, '_parent', None)
-            if p_ is not None and any(isinstance(x, ast.Call) and norm(x.func) == 'end_of_str' for s in p_.body for x in ast.walk(s)):
+            helpers_called = []
+            if p_ is not None:
+                for s_ in p_.body:
+                    for x in ast.walk(s_):
+                        if isinstance(x, ast.Call) and isinstance(x.func, ast.Name):
+                            r_ = repo.lookup(f_split.module, x.func.id)
+                            if r_ and r_[0] == 'func':
+                                helpers_called.append(r_[1])
+            if p_ is not None and (helpers_called or any(isinstance(x, (ast.While, ast.For)) for s_ in p_.body for x in ast.walk(s_))):
+                quote_helpers.extend(helpers_called)
                 inloop = p_
                 while inloop is not None and not isinstance(inloop, (ast.While, ast.For)):
                     inloop = getattr(inloop, '_parent', None)
@@ -565,15 +605,15 @@ def run(ctx):
               'next argument starts len(separator) after the separator', 'next argument starts %r characters after a %r separator' % (skip, sep))
     ctx.check(quote_branch, 'C01.8', 'splitter:quote-skip', site_split, 'a quoted string is skipped as a unit inside the scan loop',
               'the scan loop no longer skips quoted strings: commas inside strings split arguments')
-    f_eos = repo.func('parse.end_of_str')
-    stops_at_quote = False
-    for n in f_eos.body_nodes():
-        if isinstance(n, ast.While):
-            for c in ast.walk(n.test):
-                if isinstance(c, ast.Compare) and isinstance(c.ops[0], ast.NotEq) and isinstance(c.comparators[0], ast.Constant) \
-                        and c.comparators[0].value == '"':
-                    stops_at_quote = True
-    ctx.check(stops_at_quote, 'C01.8', 'end_of_str:stops-at-quote', f_eos.loc(), 'string scan stops at the closing quote')
+    # the helper that finds the end of a quoted string (whatever it is called): its scan loop must test for the closing quote
+    for f_eos in quote_helpers[:1]:
+        stops_at_quote = False
+        for n in f_eos.body_nodes():
+            if isinstance(n, (ast.While, ast.For)):
+                for c in ast.walk(n):
+                    if isinstance(c, ast.Compare) and isinstance(c.ops[0], (ast.NotEq, ast.Eq)) and any(isinstance(k_, ast.Constant) and k_.value == '"' for k_ in [c.left] + c.comparators):
+                        stops_at_quote = True
+        ctx.check(stops_at_quote, 'C01.8', 'end_of_str:stops-at-quote', f_eos.loc(), 'string scan stops at the closing quote')
 
     # ---- C01.13 every piece is decoded, in order ------------------------------------------------------
     f_al = repo.func('parse.argument_list')
